@@ -27,6 +27,7 @@ MCNext ==
     \/ \E n \in Names : DropRefused(n) /\ Settle([a |-> "dtx", n |-> n])
     \/ \E n \in Names : DropTable(n)   /\ Settle([a |-> "dt", n |-> n])
     \/ CreateIndex /\ Settle([a |-> "ci"])
+    \/ CreateFunction /\ Settle([a |-> "cf"])
     \/ \E n \in Names : Compact(n)     /\ Settle([a |-> "compact", n |-> n])
     \/ \E n \in Names, c \in 1..2 : Insert(n, c) /\ Settle([a |-> "ins", n |-> n, rows |-> (nrow + 1)..(nrow + c)])
     \/ \E n \in Names, S \in DelSets : Delete(n, S) /\ Settle([a |-> "del", n |-> n, rows |-> S,
